@@ -1160,16 +1160,16 @@ func (e *endpoint) stageFromRoot(
 
 // Stage implements the Stage method for local endpoints.
 func (e *endpoint) Stage(paths []string, digests [][]byte) ([]string, []*rsync.Signature, rsync.Receiver, error) {
-	// If we're in a read-only mode, we shouldn't be staging files.
-	if e.readOnly {
-		return nil, nil, nil, errors.New("endpoint is in read-only mode")
-	}
-
 	// Validate argument lengths and bail if there's nothing to stage.
 	if len(paths) != len(digests) {
 		return nil, nil, nil, errors.New("path count does not match digest count")
 	} else if len(paths) == 0 {
 		return nil, nil, nil, nil
+	}
+
+	// If we're in a read-only mode, we shouldn't be staging files.
+	if e.readOnly {
+		return nil, nil, nil, errors.New("endpoint is in read-only mode")
 	}
 
 	// Grab the scan lock. We'll need this to verify the last scan entry count
